@@ -1,6 +1,8 @@
-(* C17_Upper.v — grid evaluation also agrees with pointwise evaluation AT AND ABOVE the upper end of full support, where
-   pointwise evaluation is left-continuous and splineutil's bspline right-continuous: for order >= 1 and strictly
-   increasing knots the two conventions give the same value at EVERY point (B-splines of order >= 1 are continuous). *)
+(* C17_Upper.v — what fix F30_1 (bsplinebasis takes the specification's own one-sided convention) does NOT change: for order
+   >= 1 and strictly increasing knots the right- and the left-continuous Cox–de Boor functions have the same value at EVERY
+   point (B-splines of order >= 1 are continuous wherever the knot multiplicity is <= order), so on such a dimension every
+   entry of the basis matrix is what it was with the right-continuous basis. (Before the fix this continuity argument
+   carried the agreement theorem at and above knots[naxes]; the agreement theorem no longer needs it.) *)
 From Coq Require Import ZArith List Bool Lia Field Ring.
 From PS Require Import Arith EvalModel BSpline C04_Proofs OFieldKit C01_Basis C01_Core C01_Proofs C02_Proofs GridModel C17_Proofs.
 Import ListNotations.
@@ -83,45 +85,15 @@ Section Upper.
 Context {A : Arith}.
 Variable F : OField A.
 Notation K := (T A).
-Notation le := (@OFieldKit.le A).
-Notation lt := (@OFieldKit.lt A).
 
-(* per dimension: either below the upper end (where both conventions coincide by definition) or a dimension of order >= 1
-   with strictly increasing knots *)
-Definition side_ok (d : @dimn A) (x : K) : Prop :=
-  side_of d x = true \/ ((1 <= d_order d)%nat /\ strict_dim d).
-
-Lemma rc_is_side_gen (cf : Z -> K) : forall ds xs pos pr,
-  Forall (wf_dim (fun _ => True)) ds -> Forall2 side_ok ds xs ->
-  tensor_sum cf ds xs (repeat O (length ds)) pos pr = tensor_sum_rc cf ds xs pos pr.
+(* a dimension of order >= 1 with strictly increasing knots: bsplinebasis returns what it returned before fix F30_1 *)
+Theorem basis_unchanged_strict (d : @dimn A) (xs : list K) :
+  wfd d -> (1 <= d_order d)%nat -> strict_dim d -> basis_matrix d xs = basis_matrix_rc d xs.
 Proof.
-  induction ds as [|d ds IH]; intros xs pos pr Hwf H; inversion H as [|? x ? xs' Hs H']; subst; [reflexivity|].
-  inversion Hwf as [|? ? [W1 [W2 _]] Hwf']; subst.
-  cbn [length repeat tensor_sum tensor_sum_rc]. apply sum_range_ext. intros i Hi. cbv zeta. cbn [dBfun].
-  assert (E : Bfun (d_kn d) (side_of d x) (d_order d) i x = Bfun (d_kn d) true (d_order d) i x).
-  { destruct Hs as [Hs|[Ho Hst]]; [rewrite Hs; reflexivity|].
-    destruct (side_of d x); [reflexivity|]. symmetry.
-    apply (Bfun_sides_agree F (d_kn d) (d_nknots d) Hst x); lia. }
-  rewrite E.
-  destruct (eqbK (Bfun (d_kn d) true (d_order d) i x) zero) eqn:Ez.
-  - apply (eqbK_true F) in Ez. rewrite Ez, (mul_zero_r F), (tensor_rc_zero F). reflexivity.
-  - apply IH; assumption.
-Qed.
-
-Theorem grid_spec_pointwise_upper (t : @table A) (xs : list K) (cs : list Z) :
-  dims t <> [] -> Forall (wf_dim (fun _ => True)) (dims t) -> nth (ndim_of t - 1) (strides_of t) 0%Z = 1%Z -> length xs = length (dims t) ->
-  searchcenters t xs = CFound cs ->
-  Forall2 side_ok (dims t) xs ->
-  grid_spec t xs = ndsplineeval t xs cs 0.
-Proof.
-  intros Hne Hwf Hrow Hlen Hsc Hside.
-  rewrite (eval_is_tensor_sum F t xs cs Hne Hwf Hrow Hlen Hsc).
-  - unfold spline_spec, grid_spec, ndim_of. rewrite (rc_is_side_gen (coef t) (dims t) xs 0 one Hwf Hside). reflexivity.
-  - clear - Hside Hwf F. revert Hwf. induction Hside as [|d x ds xs' Hs H IH]; intros Hwf; constructor.
-    + inversion Hwf as [|? ? [W1 [W2 _]] _]; subst. unfold eval_regular. intro Hle.
-      destruct Hs as [Hs|[Ho Hst]].
-      * exfalso. unfold side_of in Hs. exact (OFieldKit.lt_not_le F _ _ Hs Hle).
-      * eapply (lt_le_trans F); [|exact Hle]. apply Hst; lia.
-    + apply IH. inversion Hwf; assumption.
+  intros Wd Ho Hst. destruct (wfd_nsplines d Wd) as [Hns Hna]. destruct Wd as [W1 [W2 _]].
+  unfold basis_matrix, basis_matrix_rc. apply map_ext. intro x. apply map_ext_in. intros col Hc.
+  apply in_seq in Hc. rewrite !(bspline_guarded_Bfun F).
+  destruct (basis_left d x); [|reflexivity]. cbn [negb]. symmetry.
+  apply (Bfun_sides_agree F (d_kn d) (d_nknots d) Hst x); lia.
 Qed.
 End Upper.
